@@ -103,3 +103,11 @@ func VerifCopyState(dst, src Breaker) {
 	d.stat.VerifCopyFrom(s.stat, func(x, y *bucket) { *x = *y })
 	d.lastPass.Set(s.lastPass.Load())
 }
+
+// VerifResetRegistry empties the package-level name -> Breaker registry (what an in-package test
+// does between cases), so that every execution starts with no named breakers.
+func VerifResetRegistry() {
+	lock.Lock()
+	breakers = make(map[string]Breaker)
+	lock.Unlock()
+}
